@@ -42,10 +42,13 @@ FrameOf(name) ==    \* index of the innermost frame that has the name, 0 if none
   LET S == {i \in 1..Len(frames) : name \in DOMAIN frames[i].vars}
   IN IF S = {} THEN 0 ELSE SetMin(S)
 
-\* A lookup that resolves to a frame that is neither the current one nor the
-\* root captured a caller's local (dynamic scoping): the statement does not
-\* say what that means, so such behaviours are marked open and not compared.
-Captures(name) == LET i == FrameOf(name) IN i # 0 /\ i # 1 /\ i # Len(frames)
+\* A lookup that crosses a FUNCTION boundary into a frame that is not the root captured a
+\* caller's local (dynamic scoping): the statement does not say what that means, so such
+\* behaviours are marked open and not compared.  Going from a <match> frame to the frames of
+\* the same function activation is ordinary nesting, not capture.
+Captures(name) ==
+  LET i == FrameOf(name)
+  IN i # 0 /\ i # Len(frames) /\ \E j \in 1..(i - 1) : frames[j].name = "fn"
 
 ValueOfName(name) == LET i == FrameOf(name) IN IF i = 0 THEN Unset ELSE frames[i].vars[name]
 
@@ -427,7 +430,7 @@ CallReturn ==
      IN frames' = IF Top.dst = "" THEN fr ELSE Assigned(fr, Top.dst, res)
   /\ open' = (open \/ (Top.dst # "" /\ LET fr == Tail(frames)
                                            S == {i \in 1..Len(fr) : Top.dst \in DOMAIN fr[i].vars}
-                                       IN S # {} /\ SetMin(S) # 1 /\ SetMin(S) # Len(fr)))
+                                       IN S # {} /\ SetMin(S) # Len(fr) /\ \E j \in 1..(SetMin(S) - 1) : fr[j].name = "fn"))
   /\ ctl' = Pop /\ sig' = "none"
   /\ retval' = IF sig = "return" THEN retval ELSE Null
   /\ UNCHANGED <<prog, sched, si, out, conds, trues, outcome>>
